@@ -4,7 +4,7 @@
    Values are the universal values of Grammar.v, named after the library's types (what a caller sees).
    Definitions only.  Strings in quoted form carry no backslash or double quote (those are exercised in literal
    form, see the C03 quantifier); the library returns quoted contents without unescaping. *)
-From TI Require Import Bytes Grammar Nom RoundTrip.
+From TI Require Import Bytes Grammar Nom RoundTrip IdMap EntryNames.
 Local Open Scope N_scope.
 
 (* ---------------------------------------------------------------- RFC 3501 character classes *)
@@ -358,16 +358,73 @@ Inductive enc_status : val -> list byte -> Prop :=
 | st_bye w : kw "BYE" w -> enc_status (VCon "Status::Bye" []) w.
 
 (* resp-text-code (the ones without lists; RFC 3501, 4315, 4551) *)
+(* ---------------------------------------------------------------- CAPABILITY (RFC 3501 7.2.1) *)
+(* capability = ("AUTH=" auth-type) / atom; "IMAP4rev1" must be among them *)
+Inductive enc_cap : val -> list byte -> Prop :=
+| cap_rev1 w : kw "IMAP4rev1" w -> enc_cap (VCon "Capability::Imap4rev1" []) w
+| cap_auth p m : kw "AUTH=" p -> m <> [] -> forallb rfc_ATOM_CHAR m = true -> enc_cap (VCon "Capability::Auth" [VBytes m]) (p ++ m)
+| cap_atom a : a <> [] -> forallb rfc_ATOM_CHAR a = true -> eq_nocase a (bs "IMAP4rev1") = false ->
+    (Nat.ltb 5 (List.length a) && eq_nocase (firstn 5 a) (bs "AUTH=")) = false ->
+    enc_cap (VCon "Capability::Atom" [VBytes a]) a.
+Inductive enc_caps : list val -> list byte -> Prop :=
+| caps_nil : enc_caps [] []
+| caps_cons c w l ws : enc_cap c w -> enc_caps l ws -> enc_caps (c :: l) (SPb ++ w ++ ws).
+Inductive enc_capability_data : val -> list byte -> Prop :=
+| enc_capability_intro k l w : kw "CAPABILITY" k -> enc_caps l w -> In (VCon "Capability::Imap4rev1" []) l ->
+    enc_capability_data (VCon "Response::Capabilities" [VList l]) (k ++ w).
+
+(* PERMANENTFLAGS "(" [flag-perm *(SP flag-perm)] ")": flag-perm = flag / "\*" *)
+Inductive enc_pflag : list byte -> list byte -> Prop :=
+| pflag_flag f w : enc_flag f w -> enc_pflag f w
+| pflag_star : enc_pflag [92; 42] [92; 42].
+Inductive enc_pflags_more : list val -> list byte -> Prop :=
+| pflags_more_nil : enc_pflags_more [] []
+| pflags_more_cons f w l ws : enc_pflag f w -> enc_pflags_more l ws -> enc_pflags_more (VBytes f :: l) (SPb ++ w ++ ws).
+Inductive enc_pflag_list : val -> list byte -> Prop :=
+| pflag_list_empty : enc_pflag_list (VList []) [40; 41]
+| pflag_list_some f w l ws : enc_pflag f w -> enc_pflags_more l ws -> enc_pflag_list (VList (VBytes f :: l)) ([40] ++ w ++ ws ++ [41]).
+(* BADCHARSET [SP "(" astring *(SP astring) ")"] *)
+Inductive enc_charsets_more : list val -> list byte -> Prop :=
+| charsets_more_nil : enc_charsets_more [] []
+| charsets_more_cons s w l ws : enc_astring s w -> utf8_valid s = true -> enc_charsets_more l ws -> enc_charsets_more (VBytes s :: l) (SPb ++ w ++ ws).
+(* uid-set = (uniqueid / uid-range) *("," uid-set)  (RFC 4315); a range written high:low is low:high *)
+Inductive enc_uid_item : val -> list byte -> Prop :=
+| uid_single n w : enc_number 32 n w -> enc_uid_item (VCon "UidSetMember::Uid" [VNum n]) w
+| uid_range a b wa wb : enc_number 32 a wa -> enc_number 32 b wb ->
+    enc_uid_item (VCon "UidSetMember::UidRange" [if a <=? b then VCon "RangeInclusive" [VNum a; VNum b] else VCon "RangeInclusive" [VNum b; VNum a]]) (wa ++ [58] ++ wb).
+Inductive enc_uid_more : list val -> list byte -> Prop :=
+| uid_more_nil : enc_uid_more [] []
+| uid_more_cons v l w ws : enc_uid_item v w -> enc_uid_more l ws -> enc_uid_more (v :: l) ([44] ++ w ++ ws).
+Inductive enc_uid_set : val -> list byte -> Prop :=
+| uid_set_intro v w l ws : enc_uid_item v w -> enc_uid_more l ws -> enc_uid_set (VList (v :: l)) (w ++ ws).
+
+Inductive enc_code_simple : val -> list byte -> Prop :=
+| code_alert w : kw "ALERT" w -> enc_code_simple (VCon "ResponseCode::Alert" []) w
+| code_parse w : kw "PARSE" w -> enc_code_simple (VCon "ResponseCode::Parse" []) w
+| code_read_only w : kw "READ-ONLY" w -> enc_code_simple (VCon "ResponseCode::ReadOnly" []) w
+| code_read_write w : kw "READ-WRITE" w -> enc_code_simple (VCon "ResponseCode::ReadWrite" []) w
+| code_try_create w : kw "TRYCREATE" w -> enc_code_simple (VCon "ResponseCode::TryCreate" []) w
+| code_uid_validity k n w : kw "UIDVALIDITY " k -> enc_number 32 n w -> enc_code_simple (VCon "ResponseCode::UidValidity" [VNum n]) (k ++ w)
+| code_uid_next k n w : kw "UIDNEXT " k -> enc_number 32 n w -> enc_code_simple (VCon "ResponseCode::UidNext" [VNum n]) (k ++ w)
+| code_unseen k n w : kw "UNSEEN " k -> enc_number 32 n w -> enc_code_simple (VCon "ResponseCode::Unseen" [VNum n]) (k ++ w)
+| code_highest_mod_seq k n w : kw "HIGHESTMODSEQ " k -> enc_number 64 n w -> enc_code_simple (VCon "ResponseCode::HighestModSeq" [VNum n]) (k ++ w).
 Inductive enc_code : val -> list byte -> Prop :=
-| code_alert w : kw "ALERT" w -> enc_code (VCon "ResponseCode::Alert" []) w
-| code_parse w : kw "PARSE" w -> enc_code (VCon "ResponseCode::Parse" []) w
-| code_read_only w : kw "READ-ONLY" w -> enc_code (VCon "ResponseCode::ReadOnly" []) w
-| code_read_write w : kw "READ-WRITE" w -> enc_code (VCon "ResponseCode::ReadWrite" []) w
-| code_try_create w : kw "TRYCREATE" w -> enc_code (VCon "ResponseCode::TryCreate" []) w
-| code_uid_validity k n w : kw "UIDVALIDITY " k -> enc_number 32 n w -> enc_code (VCon "ResponseCode::UidValidity" [VNum n]) (k ++ w)
-| code_uid_next k n w : kw "UIDNEXT " k -> enc_number 32 n w -> enc_code (VCon "ResponseCode::UidNext" [VNum n]) (k ++ w)
-| code_unseen k n w : kw "UNSEEN " k -> enc_number 32 n w -> enc_code (VCon "ResponseCode::Unseen" [VNum n]) (k ++ w)
-| code_highest_mod_seq k n w : kw "HIGHESTMODSEQ " k -> enc_number 64 n w -> enc_code (VCon "ResponseCode::HighestModSeq" [VNum n]) (k ++ w).
+| code_simple c w : enc_code_simple c w -> enc_code c w
+| code_uid_not_sticky w : kw "UIDNOTSTICKY" w -> enc_code (VCon "ResponseCode::UidNotSticky" []) w
+| code_md_too_many w : kw "METADATA TOOMANY" w -> enc_code (VCon "ResponseCode::MetadataTooMany" []) w
+| code_md_no_private w : kw "METADATA NOPRIVATE" w -> enc_code (VCon "ResponseCode::MetadataNoPrivate" []) w
+| code_md_long_entries k n w : kw "METADATA LONGENTRIES " k -> enc_number 64 n w -> enc_code (VCon "ResponseCode::MetadataLongEntries" [VNum n]) (k ++ w)
+| code_md_max_size k n w : kw "METADATA MAXSIZE " k -> enc_number 64 n w -> enc_code (VCon "ResponseCode::MetadataMaxSize" [VNum n]) (k ++ w)
+| code_permanent_flags k v w : kw "PERMANENTFLAGS " k -> enc_pflag_list v w -> enc_code (VCon "ResponseCode::PermanentFlags" [v]) (k ++ w)
+| code_badcharset_bare k : kw "BADCHARSET" k -> enc_code (VCon "ResponseCode::BadCharset" [VNone]) k
+| code_badcharset k s w l ws : kw "BADCHARSET" k -> enc_astring s w -> utf8_valid s = true -> enc_charsets_more l ws ->
+    enc_code (VCon "ResponseCode::BadCharset" [VSome (VList (VBytes s :: l))]) (k ++ SPb ++ [40] ++ w ++ ws ++ [41])
+| code_append_uid k n wn s ws : kw "APPENDUID " k -> enc_number 32 n wn -> enc_uid_set s ws ->
+    enc_code (VCon "ResponseCode::AppendUid" [VNum n; s]) (k ++ wn ++ SPb ++ ws)
+| code_capability k l w : kw "CAPABILITY" k -> enc_caps l w -> In (VCon "Capability::Imap4rev1" []) l ->
+    enc_code (VCon "ResponseCode::Capabilities" [VList l]) (k ++ w)
+| code_copy_uid k n wn s1 ws1 s2 ws2 : kw "COPYUID " k -> enc_number 32 n wn -> enc_uid_set s1 ws1 -> enc_uid_set s2 ws2 ->
+    enc_code (VCon "ResponseCode::CopyUid" [VNum n; s1; s2]) (k ++ wn ++ SPb ++ ws1 ++ SPb ++ ws2).
 
 (* resp-text = ["[" resp-text-code "]" SP] text; text = 1*TEXT-CHAR (a text that is not a code does not begin with "[");
    (code, information) *)
@@ -465,30 +522,25 @@ Inductive enc_mailbox_list : val -> list byte -> Prop :=
                         [("name_attributes"%string, attrs); ("delimiter"%string, dl); ("name"%string, VBytes m)]])
                      (k ++ wa ++ SPb ++ wd ++ SPb ++ wm).
 
+(* FLAGS (the flags applicable to the mailbox, RFC 3501 7.2.6) and the Gmail mailbox data *)
+Inductive enc_mailbox_misc : val -> list byte -> Prop :=
+| mm_flags k v w : kw "FLAGS " k -> enc_flag_list v w ->
+    enc_mailbox_misc (VCon "Response::MailboxData" [VCon "MailboxDatum::Flags" [v]]) (k ++ w)
+| mm_labels k v w : kw "X-GM-LABELS " k -> enc_label_list v w ->
+    enc_mailbox_misc (VCon "Response::MailboxData" [VCon "MailboxDatum::GmailLabels" [v]]) (k ++ w)
+| mm_msgid k n w : kw "X-GM-MSGID " k -> enc_number 64 n w ->
+    enc_mailbox_misc (VCon "Response::MailboxData" [VCon "MailboxDatum::GmailMsgId" [VNum n]]) (k ++ w).
+
 (* every untagged data response the round-trip theorem reaches, besides FETCH *)
 Inductive enc_data : val -> list byte -> Prop :=
 | data_basic v body : enc_untagged v body -> enc_data v body
 | data_quota v body : enc_quota v body -> enc_data v body
 | data_status v body : enc_mailbox_status v body -> enc_data v body
-| data_list v body : enc_mailbox_list v body -> enc_data v body.
+| data_list v body : enc_mailbox_list v body -> enc_data v body
+| data_misc v body : enc_mailbox_misc v body -> enc_data v body.
 Inductive enc_data_response : val -> list byte -> Prop :=
 | enc_data_intro v body sp : enc_data v body -> enc_spaces sp -> enc_data_response v (bs "* " ++ body ++ sp ++ [13; 10]).
 
-
-(* ---------------------------------------------------------------- CAPABILITY (RFC 3501 7.2.1) *)
-(* capability = ("AUTH=" auth-type) / atom; "IMAP4rev1" must be among them *)
-Inductive enc_cap : val -> list byte -> Prop :=
-| cap_rev1 w : kw "IMAP4rev1" w -> enc_cap (VCon "Capability::Imap4rev1" []) w
-| cap_auth p m : kw "AUTH=" p -> m <> [] -> forallb rfc_ATOM_CHAR m = true -> enc_cap (VCon "Capability::Auth" [VBytes m]) (p ++ m)
-| cap_atom a : a <> [] -> forallb rfc_ATOM_CHAR a = true -> eq_nocase a (bs "IMAP4rev1") = false ->
-    (Nat.ltb 5 (List.length a) && eq_nocase (firstn 5 a) (bs "AUTH=")) = false ->
-    enc_cap (VCon "Capability::Atom" [VBytes a]) a.
-Inductive enc_caps : list val -> list byte -> Prop :=
-| caps_nil : enc_caps [] []
-| caps_cons c w l ws : enc_cap c w -> enc_caps l ws -> enc_caps (c :: l) (SPb ++ w ++ ws).
-Inductive enc_capability_data : val -> list byte -> Prop :=
-| enc_capability_intro k l w : kw "CAPABILITY" k -> enc_caps l w -> In (VCon "Capability::Imap4rev1" []) l ->
-    enc_capability_data (VCon "Response::Capabilities" [VList l]) (k ++ w).
 
 (* ---------------------------------------------------------------- ENABLED (RFC 5161 3.2) *)
 (* "ENABLED" *(SP capability); every name is reported as an atom *)
@@ -570,6 +622,47 @@ Inductive enc_listrights_response : val -> list byte -> Prop :=
     enc_astring i wi -> utf8_valid i = true -> enc_ws1 s3 -> enc_rights req wr -> enc_right_items opt wo -> opt <> [] -> enc_spaces sp ->
     enc_listrights_response (listrights_val m i req opt) (bs "* " ++ (k ++ s1 ++ wm ++ s2 ++ wi ++ s3 ++ wr ++ wo) ++ sp ++ [13; 10]).
 
+(* ---------------------------------------------------------------- ID (RFC 2971 3.1) *)
+(* id_response = "ID" SP id_params_list; id_params_list = "(" *(string SP nstring) ")" / nil.  The value is the map the
+   fields denote (IdMap.denotes: the last field of a name wins, fields without a value are not part of it), dumped
+   sorted by name *)
+Inductive enc_id_field : field -> list byte -> Prop :=
+| idf_nil k wk s w : enc_string k wk -> utf8_valid k = true -> enc_ws1 s -> enc_nil w -> enc_id_field (k, None) (wk ++ s ++ w)
+| idf_val k wk s v wv : enc_string k wk -> utf8_valid k = true -> enc_ws1 s -> enc_string v wv -> utf8_valid v = true ->
+    enc_id_field (k, Some v) (wk ++ s ++ wv).
+Inductive enc_id_fields_more : list field -> list byte -> Prop :=
+| idfs_nil : enc_id_fields_more [] []
+| idfs_cons s f w l ws : enc_ws1 s -> enc_id_field f w -> enc_id_fields_more l ws -> enc_id_fields_more (f :: l) (s ++ w ++ ws).
+Definition id_map_val (m : amap) : val := VList (map (fun kv => VTuple [VBytes (fst kv); VBytes (snd kv)]) m).
+Inductive enc_id : val -> list byte -> Prop :=
+| id_nil k s w : kw "ID" k -> enc_ws1 s -> enc_nil w -> enc_id (VCon "Response::Id" [VNone]) (k ++ s ++ w)
+| id_some k s f wf l wl s0 m : kw "ID" k -> enc_ws1 s -> enc_id_field f wf -> enc_id_fields_more l wl ->
+    forallb (fun b => (b =? 32) || (b =? 9)) s0 = true -> denotes (f :: l) m ->
+    enc_id (VCon "Response::Id" [VSome (id_map_val m)]) (k ++ s ++ [40] ++ wf ++ wl ++ s0 ++ [41]).
+
+(* ---------------------------------------------------------------- METADATA (RFC 5464 4.4) *)
+(* solicited:   "METADATA" SP mailbox SP "(" entry SP value *(SP entry SP value) ")"
+   unsolicited: "METADATA" SP mailbox SP entry *(SP entry);   entry names are those of EntryNames.rfc_entry *)
+Inductive enc_md_value : val -> list byte -> Prop :=
+| mdv_nil w : enc_nil w -> enc_md_value VNone w
+| mdv_string s w : enc_string s w -> utf8_valid s = true -> enc_md_value (VSome (VBytes s)) w.
+Inductive enc_md_pair : val -> list byte -> Prop :=
+| md_pair e we v wv : rfc_entry e -> enc_astring e we -> enc_md_value v wv ->
+    enc_md_pair (VRec "Metadata" [("entry"%string, VBytes e); ("value"%string, v)]) (we ++ SPb ++ wv).
+Inductive enc_md_pairs_more : list val -> list byte -> Prop :=
+| md_pairs_nil : enc_md_pairs_more [] []
+| md_pairs_cons p w l ws : enc_md_pair p w -> enc_md_pairs_more l ws -> enc_md_pairs_more (p :: l) (SPb ++ w ++ ws).
+Inductive enc_md_entries_more : list val -> list byte -> Prop :=
+| md_entries_nil : enc_md_entries_more [] []
+| md_entries_cons e w l ws : rfc_entry e -> enc_astring e w -> enc_md_entries_more l ws -> enc_md_entries_more (VBytes e :: l) (SPb ++ w ++ ws).
+Inductive enc_metadata : val -> list byte -> Prop :=
+| md_solicited k m wm p wp l wl : kw "METADATA " k -> enc_mailbox m wm -> enc_md_pair p wp -> enc_md_pairs_more l wl ->
+    enc_metadata (VCon "Response::MailboxData" [VRec "MailboxDatum::MetadataSolicited" [("mailbox"%string, VBytes m); ("values"%string, VList (p :: l))]])
+                 (k ++ wm ++ SPb ++ [40] ++ wp ++ wl ++ [41])
+| md_unsolicited k m wm e we l wl : kw "METADATA " k -> enc_mailbox m wm -> rfc_entry e -> enc_astring e we -> enc_md_entries_more l wl ->
+    enc_metadata (VCon "Response::MailboxData" [VRec "MailboxDatum::MetadataUnsolicited" [("mailbox"%string, VBytes m); ("values"%string, VList (VBytes e :: l))]])
+                 (k ++ wm ++ SPb ++ we ++ wl).
+
 (* ---------------------------------------------------------------- every response line the round-trip theorem reaches *)
 Inductive enc_response : val -> list byte -> Prop :=
 | resp_fetch v w : enc_fetch v w -> enc_response v w
@@ -583,4 +676,6 @@ Inductive enc_response : val -> list byte -> Prop :=
 | resp_capability v body sp : enc_capability_data v body -> enc_spaces sp -> enc_response v (bs "* " ++ body ++ sp ++ [13; 10])
 | resp_enabled v body sp : enc_enabled_data v body -> enc_spaces sp -> enc_response v (bs "* " ++ body ++ sp ++ [13; 10])
 | resp_quotaroot v body sp : enc_quotaroot v body -> enc_spaces sp -> enc_response v (bs "* " ++ body ++ sp ++ [13; 10])
-| resp_myrights v body sp : enc_myrights v body -> enc_spaces sp -> enc_response v (bs "* " ++ body ++ sp ++ [13; 10]).
+| resp_myrights v body sp : enc_myrights v body -> enc_spaces sp -> enc_response v (bs "* " ++ body ++ sp ++ [13; 10])
+| resp_id v body sp : enc_id v body -> enc_spaces sp -> enc_response v (bs "* " ++ body ++ sp ++ [13; 10])
+| resp_metadata v body sp : enc_metadata v body -> enc_spaces sp -> enc_response v (bs "* " ++ body ++ sp ++ [13; 10]).
